@@ -1,12 +1,60 @@
-"""C10  (shared soup driver)
+"""C10  Flags are well-typed, shared with tracts, and raised whenever warranted.
 
-spec/PlssDesc.tla       token-level input space (every token sequence x configuration)
-spec/ObsInvariants.tla  Returned / AtLeastOneTract
-spec/PlssDescTrace.tla  verdicts
+spec/ObsInvariants.tla  ClauseC10
+spec/PlssDesc.tla       token-level input space;  spec/PlssDoc.tla  document shapes for trigger placement
 """
-from .. import core, plsssoup
+from .. import core, plssdoc, plsssoup, soup
+from .. import render as R
 
 PROP = "C10"
+# phrase -> the word(s) that must show up in the warning's context
+PHRASES = {
+    "less_except": [("less and except", "less and except"), ("except", "except"), ("limited to", "limit")],
+    "insofar": [("insofar as", "insofar"), ("only insofar as", "insofar"), ("in so far as", "in so far")],
+    "including": [("including", "includ")],
+    "depth": [("from the surface to the base of", "surface"), ("depths", "depth"), ("surface to the base of", "base")],
+    "well": [("wellbore", "wellbore"), ("well", "well")],
+}
+PLAIN_BLOCKS = ["NE/4", "W/2", "S/2N/2", "Lots 1 - 3, S/2NE/4", "That part lying north of the river", "N½SW¼"]
+TAILS = {"less_except": "the old road", "insofar": "it lies north of the river", "including": "all accretions",
+         "depth": "the Dakota", "well": "of the Smith #1"}
+
+
+def trigger_cases(ctx, shapes, prefix="g"):
+    cases = []
+    for i, a in enumerate(shapes):
+        doc = plssdoc.concretise(a, ctx.rng)
+        ids = sorted(doc["blocks"])
+        for b in ids:
+            doc["blocks"][b] = ctx.rng.choice(PLAIN_BLOCKS)
+        kind = ctx.rng.choice(sorted(PHRASES))
+        phrase, key = ctx.rng.choice(PHRASES[kind])
+        b = ctx.rng.choice(ids)
+        place = ctx.rng.choice(["start", "mid", "end"])
+        blk = doc["blocks"][b]
+        cap = phrase[0].upper() + phrase[1:] if ctx.rng.random() < 0.5 else phrase
+        if place == "start":
+            doc["blocks"][b] = "%s %s %s" % (cap, TAILS[kind], blk) if kind in ("depth", "well") else "%s %s" % (cap, blk)
+        elif place == "mid":
+            doc["blocks"][b] = "%s, %s %s" % (blk, phrase, TAILS[kind])
+        else:
+            doc["blocks"][b] = "%s %s" % (blk, phrase)
+        text = plssdoc.render_doc(doc, ctx.rng)
+        cfg = ctx.rng.choice([None, None, "segment", "sec_colon_cautious", "parse_qq", "clean_qq,parse_qq"])
+        cases.append({"id": "%s%d" % (prefix, i), "kind": "plss", "origin": "trigger placement", "abs": {},
+                      "args": {"text": text, "config": cfg, "source": "SRC-1",
+                               "triggers": [{"kind": kind, "phrase": key}]}})
+    return cases
+
+
+def soup_cases(ctx, n):
+    cases = []
+    for i in range(n):
+        args = {"text": soup.rand_text(ctx.rng), "config": soup.rand_config(ctx.rng), "source": "SRC-1"}
+        if ctx.rng.random() < 0.4:
+            args["kw"] = {"parse_qq": True}
+        cases.append({"id": "s%d" % i, "kind": "plss", "origin": "soup", "abs": {}, "args": args})
+    return cases
 
 
 def run(ctx):
@@ -14,7 +62,19 @@ def run(ctx):
     cases = plsssoup.model_cases(ctx, 4 if thorough else 3, plsssoup.ALL_CONFIGS, keep=0.5 if thorough else 1.0)
     ctx.exhaustive = not thorough
     plsssoup.judge(ctx, PROP, cases)
-    ctx.rule = "token sequences x configurations of spec/PlssDesc.tla"
+    plsssoup.judge(ctx, PROP, soup_cases(ctx, 40000 if thorough else 5000))
+    res = ctx.tlc("PlssDoc", {"MaxGroups": 2, "MaxSecs": 2, "TRIds": {1, 2}, "Fault": "none", "EmitCases": True},
+                  invariants=["EmitCase"], workers=1, count=False)
+    shapes = [a for a in res.cases if ctx.rng.random() < (1.0 if thorough else 0.3)]
+    plsssoup.judge(ctx, PROP, trigger_cases(ctx, shapes))
+    ctx.rule = ("(a) token sequences of spec/PlssDesc.tla up to %d tokens x 15 configurations, (b) seeded soup x random "
+                "configurations (typing, pairing, hand-down, flawed <=> error flag, error TRS => error flag), (c) documents "
+                "(shapes from spec/PlssDoc.tla) with one of 12 trigger phrases placed at the start / middle / end of a random "
+                "block x 6 configurations (warning of that kind raised, trigger word in its context); non-trivial = distinct "
+                "(text, configuration)" % (4 if thorough else 3))
+    ctx.assumptions += ["flags are compared as multisets, flag/line pairing by first tuple component (R2)",
+                        "trigger placements are inside description blocks of documented layouts (text that `segment` "
+                        "leaves outside every chunk is not part of this family)"]
 
 
 def replay(ctx, payload):
